@@ -118,10 +118,15 @@ func (t *Target) BuildRedirectURL(requestURL *url.URL) {
 				replaceRawPath = replaceRawPath[len(t.StripPath):]
 			}
 		}
+		// like the path the proxy sends upstream, what is left of the path
+		// is absolute: strip=/app/ leaves /users of /app/users and strip=/foo
+		// leaves /%2Fbar of /foo%2Fbar. Nothing at all stays nothing.
+		replacePath, replaceRawPath = absRedirectPath(replacePath, replaceRawPath)
 		// add prepend path
 		if t.PrependPath != "" {
 			replacePath = t.PrependPath + replacePath
 			replaceRawPath = t.PrependPath + replaceRawPath
+			replacePath, replaceRawPath = absRedirectPath(replacePath, replaceRawPath)
 		}
 		// do path replacement
 		t.RedirectURL.Path = strings.Replace(t.RedirectURL.Path, "$path", replacePath, 1)
@@ -137,4 +142,22 @@ func (t *Target) BuildRedirectURL(requestURL *url.URL) {
 	if strings.Contains(t.RedirectURL.Host, "$host") {
 		t.RedirectURL.Host = strings.Replace(t.RedirectURL.Host, "$host", requestURL.Host, 1)
 	}
+}
+
+// absRedirectPath puts a slash in front of a non-empty path which does not
+// start with one. The encoded path follows: it gets the slash when the path
+// gets it or when its own first slash is an encoded one (which is data).
+func absRedirectPath(path, rawPath string) (string, string) {
+	switch {
+	case path == "":
+		return path, rawPath
+	case !strings.HasPrefix(path, "/"):
+		if !strings.HasPrefix(rawPath, "/") {
+			rawPath = "/" + rawPath
+		}
+		return "/" + path, rawPath
+	case rawPath != "" && !strings.HasPrefix(rawPath, "/"):
+		return "/" + path, "/" + rawPath
+	}
+	return path, rawPath
 }
